@@ -213,12 +213,11 @@ def policy(repo, tier):
                                       "; ".join(r.desc for r in res if not r.ok) or f"{len(res)} read site(s) dominated", ARCH))
         fns.append(dict(arch.fn_info(fn_name), obligations=1))
 
-    size_guard("_extract_from_zip_optimized", lambda t: t == "info.file_size > _config.max_memory_size",
-               lambda n: isinstance(n.func, ast.Attribute) and n.func.attr in ("read", "open") and ast.unparse(n.func.value) == "zf",
-               "member-size-check-dominates-read")
-    size_guard("_extract_from_tar_optimized", lambda t: t == "member.size > _config.max_memory_size",
-               lambda n: isinstance(n.func, ast.Attribute) and n.func.attr in ("extractfile", "extract", "extractall"),
-               "member-size-check-dominates-read")
+    from contracts import archive_guards
+    for o, info in archive_guards.zip_and_tar("C12", repo):
+        obls.append(o)
+        if info:
+            fns.append(dict(info, obligations=1))
     # the declared size is the size that is read only for regular members (links declare 0 and read their target)
     f = arch.functions.get("_extract_from_tar_optimized")
     if f is not None:
